@@ -798,6 +798,30 @@ class RealBackend(object):
             c = getattr(c, "parent", None)
         self.ev("stack", inst.token, n)
 
+    def aio_call(self, inst):
+        """Synchronous code inside a running task drives another asynq function through
+        asyncio.run(fn.asyncio()); that function enters and leaves a context of its own (in asyncio
+        mode a context is simply resumed and paused around its block). Afterwards the context is
+        gone: nothing may touch it when the calling task is suspended and resumed later."""
+        import asyncio
+        self.nctx += 1
+        cm = SimContext(self, "%s.aio%d" % (inst.token, self.nctx), inst)
+        B = self
+
+        @A.asynq()
+        def leaf():
+            with cm:
+                B.ev("aio_body", inst.token)
+                yield A.ConstFuture(None)
+            return "aio"
+        self.fired("asyncio_run_inside_a_task")
+        try:
+            asyncio.run(leaf.asyncio())
+        finally:
+            cm.left = True
+        if cm.active:
+            self.viol("C06", "exit-pauses", "context %s entered under asyncio.run() is still active after its block was left" % cm.cid)
+
     def set_option(self, inst, name, value):
         """User code flips a debug option in the middle of a task step."""
         if name in DEFAULT_OPTIONS:
